@@ -25,7 +25,7 @@ class TimedMutex : public Mutex {
   template <typename Timeout>
   bool TimedWaitHelper(const Timeout& timeout) {
     bool r = true;
-    if (_occupied) {
+    while (r && _occupied) {
       r = _queue.Wait(timeout) == WaitStatus::Ready;
     }
     YACLIB_DEBUG(r && _occupied, "about to be locked twice");
